@@ -70,6 +70,13 @@ func applyStep(st *C08Step, r rs, b *builder) (got rs, pieces []rs, err error) {
 	case "Reflect":
 		args[len(args)-1] = reflect.ValueOf(r)
 		return redact.Sprintf(d, args...), []rs{r}, nil
+	case "ReflectField":
+		// a reflect.Value obtained from an unexported field
+		args[len(args)-1] = reflect.ValueOf(StructB{r: r}).Field(4)
+		return redact.Sprintf(d, args...), []rs{r}, nil
+	case "ReflectIfaceField":
+		args[len(args)-1] = reflect.ValueOf(StructA{z: r}).Field(2)
+		return redact.Sprintf(d, args...), []rs{r}, nil
 	case "Safe":
 		args[len(args)-1] = redact.Safe(r)
 		return redact.Sprintf(d, args...), []rs{r}, nil
